@@ -1,6 +1,6 @@
 (* C02 — property theorems.  Only statements, `exact`, and Print Assumptions. *)
 From Sdns Require Import Common.Base Gen.C02 C02.Model C02.Spec
-  C02.ModelNsec3 C02.Proofs_Order C02.Proofs_Nsec C02.Proofs_Spec C02.Proofs_NsecTop C02.Proofs_Nsec3 C02.ModelCut C02.Proofs_Cut C02.ModelAuth C02.ModelShared C02.Proofs_Shared C02.Proofs_Gen C02.Proofs_Mix.
+  C02.ModelNsec3 C02.Proofs_Order C02.Proofs_Nsec C02.Proofs_Spec C02.Proofs_NsecTop C02.Proofs_Nsec3 C02.ModelCut C02.Proofs_Cut C02.ModelAuth C02.ModelShared C02.Proofs_Shared C02.Proofs_Gen C02.Proofs_Mix C02.Proofs_Walk C02.Proofs_Zone.
 Open Scope N_scope.
 
 (* ---- canonical order (RFC 4034 §6.1) is a total order *)
@@ -283,6 +283,107 @@ Theorem authority_foreign_signed_refused :
 Proof. exact authority_unsigned_refused. Qed.
 Print Assumptions authority_foreign_signed_refused.
 
+(* ---- the QNAME-minimised walk below the zone's authority (session 5; Resolver.Resolve -> resolve -> minimize ->
+   processAuthoritySection -> authority; ModelAuth.min_walk, driven through Resolver.Resolve by driver walk).
+   For every well-formed zone, every authority section in which whatever carries the zone's signature is a
+   genuine chain record (the rest arbitrary), every question below the apex and EVERY script of replies the
+   authority gives to the minimised questions (NOERROR or NXDOMAIN at each level, truthful or not) and to the
+   full question: if the resolution ends without error and authenticates (AD) or publishes validated-negative
+   provenance, then CD=0 and the result is true of the zone for the FULL question — NXDOMAIN only for a name
+   that exists in none of the five ways (an early stop at a minimised name denies the subtree, RFC 8020),
+   NODATA only when it is true *)
+Theorem minimised_walk_sound :
+  forall z recs cd q qtype qclass nx frc,
+  zone_wf z -> (forall r, In (r, true) recs -> genuine z r) -> is_prefix (z_apex z) q ->
+  let w := min_walk (fun m rc => authority_nsec_signed rc cd m qtype qclass (z_apex z) recs) false
+                    (combine (walk_names (length (z_apex z)) q) nx) q frc 0 in
+  w_err w = E_ok -> (w_ad w = true \/ w_marked w = true \/ w_aggr w = true) ->
+  cd = false /\ (if (w_rcode w =? RC_NXDOMAIN)%N then ~ exists_in z q else nodata_true z q qtype).
+Proof. exact minimised_walk_sound_names. Qed.
+Print Assumptions minimised_walk_sound.
+(* whatever validates the replies (NSEC or NSEC3 branch of Resolver.authority, any records): the walk ends
+   before the full name was asked only at a level whose NXDOMAIN reply was validated with published,
+   aggressive-eligible provenance, and never when the reply holds an Opt-Out NSEC3 of the zone — "RFC 8020 stop
+   at a minimised NXDOMAIN only for aggressive, non-opt-out proofs"; CD=1, unsigned, Opt-Out and merely
+   exact-verified denials keep the deeper walk *)
+Theorem minimised_walk_stops_only_when_eligible :
+  forall (auth : rname -> N -> auth_out) optout q frc levels asked,
+  let w := min_walk auth optout levels q frc asked in
+  w_err w = E_ok -> (w_asked w <= asked + length levels)%nat ->
+  optout = false /\ w_rcode w = RC_NXDOMAIN /\ w_marked w = true /\ w_aggr w = true /\
+  exists m, In (m, true) levels /\ auth m RC_NXDOMAIN = (E_ok, w_ad w, true, true).
+Proof. exact min_walk_early_gen. Qed.
+Print Assumptions minimised_walk_stops_only_when_eligible.
+(* the same soundness statement for any validator whose accepted, published verdicts are true for the names asked
+   (the NSEC3 branch: nsec3_nameerror_sound_partial / nsec3_nodata_sound under nsec3_world) *)
+Theorem minimised_walk_sound_any_validator :
+  forall (auth : rname -> N -> auth_out) optout z q qtype frc (P : rname -> Prop),
+  (forall m rc ad mk ag, P m -> auth m rc = (E_ok, ad, mk, ag) -> (ad = true \/ mk = true \/ ag = true) ->
+     if (rc =? RC_NXDOMAIN)%N then ~ exists_in z m else nodata_true z m qtype) ->
+  P q ->
+  forall levels asked,
+  (forall m b, In (m, b) levels -> P m /\ is_prefix m q) ->
+  let w := min_walk auth optout levels q frc asked in
+  w_err w = E_ok -> (w_ad w = true \/ w_marked w = true \/ w_aggr w = true) ->
+  if (w_rcode w =? RC_NXDOMAIN)%N then ~ exists_in z q else nodata_true z q qtype.
+Proof. exact min_walk_sound_gen. Qed.
+Print Assumptions minimised_walk_sound_any_validator.
+
+(* the NSEC3 branch of Resolver.authority and the walk over it, for an abstract collision-free hash (nsec3_world),
+   any sub-multiset of the genuine hashed chain, Opt-Out included (optout_discipline: Opt-Out hides only
+   unsigned delegations, never a wildcard name): AD / provenance / eligibility only for true denials; the walk,
+   for any script of replies and either outcome of the HasNSEC3OptOut test, returns only true denials *)
+Theorem authority_nsec3_sound :
+  forall H z hashed tab recs rcode cd q qtype qclass signer ad marked aggr,
+  nsec3_world H z hashed tab -> optout_masks_are_bit0 -> optout_discipline z hashed ->
+  all_genuine3 H z hashed recs -> wildcards_not_delegations z ->
+  authority_nsec3 rcode cd q qtype qclass signer recs tab = (E_ok, ad, marked, aggr) ->
+  (ad = true \/ marked = true \/ aggr = true) ->
+  cd = false /\ (if (rcode =? RC_NXDOMAIN)%N then ~ exists_in z q else nodata_true z q qtype).
+Proof. exact authority_nsec3_sound_lemma. Qed.
+Print Assumptions authority_nsec3_sound.
+Theorem minimised_walk_nsec3_sound :
+  forall H z hashed tab recs cd q qtype qclass signer optout levels frc,
+  nsec3_world H z hashed tab -> optout_masks_are_bit0 -> optout_discipline z hashed ->
+  all_genuine3 H z hashed recs -> wildcards_not_delegations z ->
+  (forall m b, In (m, b) levels -> is_prefix m q) ->
+  let w := min_walk (fun m rc => authority_nsec3 rc cd m qtype qclass signer recs tab) optout levels q frc 0 in
+  w_err w = E_ok -> (w_ad w = true \/ w_marked w = true \/ w_aggr w = true) ->
+  if (w_rcode w =? RC_NXDOMAIN)%N then ~ exists_in z q else nodata_true z q qtype.
+Proof. exact minimised_walk_nsec3_sound_lemma. Qed.
+Print Assumptions minimised_walk_nsec3_sound.
+(* NSEC3 branch with its signature layer (session 5; one signed-by-the-zone bit per record as in
+   authority_nsec_signed_sound): what the zone's key signed is a record of the genuine hashed chain, everything
+   else — unsigned records, a child or sibling zone's NSEC3 chain under its own key — is arbitrary: a mixture of
+   zones is refused or harmless, never a fabricated denial *)
+Theorem authority_nsec3_signed_sound :
+  forall H z hashed tab recs rcode cd q qtype qclass signer ad marked aggr,
+  nsec3_world H z hashed tab -> optout_masks_are_bit0 -> optout_discipline z hashed ->
+  (forall r, In (r, true) recs -> rec_genuine3 H z hashed r) -> wildcards_not_delegations z ->
+  authority_nsec3_signed rcode cd q qtype qclass signer recs tab = (E_ok, ad, marked, aggr) ->
+  (ad = true \/ marked = true \/ aggr = true) ->
+  cd = false /\ (if (rcode =? RC_NXDOMAIN)%N then ~ exists_in z q else nodata_true z q qtype).
+Proof. exact authority_nsec3_signed_sound_lemma. Qed.
+Print Assumptions authority_nsec3_signed_sound.
+Theorem authority_nsec3_foreign_signed_refused :
+  forall rcode q qtype qclass signer recs tab r,
+  In (r, false) recs -> in_zone3 signer r = true ->
+  authority_nsec3_signed rcode false q qtype qclass signer recs tab = (E_other, false, false, false).
+Proof. exact authority_nsec3_unsigned_refused. Qed.
+Print Assumptions authority_nsec3_foreign_signed_refused.
+(* what an early stop of the walk publishes for cache.RecordNXDomainCut (the provenance subject = the minimised
+   name the walk stopped at) is a name that does not exist *)
+Theorem minimised_walk_cut_nonexistent :
+  forall z recs cd q qtype qclass nx frc,
+  zone_wf z -> (forall r, In (r, true) recs -> genuine z r) -> is_prefix (z_apex z) q ->
+  let levels := combine (walk_names (length (z_apex z)) q) nx in
+  let w := min_walk (fun m rc => authority_nsec_signed rc cd m qtype qclass (z_apex z) recs) false levels q frc 0 in
+  w_err w = E_ok -> (w_asked w <= length levels)%nat ->
+  cd = false /\ exists m, In m (walk_names (length (z_apex z)) q) /\ is_prefix m q /\ ~ exists_in z m /\
+    authority_nsec_signed RC_NXDOMAIN cd m qtype qclass (z_apex z) recs = (E_ok, w_ad w, true, true).
+Proof. exact minimised_walk_cut_nonexistent_lemma. Qed.
+Print Assumptions minimised_walk_cut_nonexistent.
+
 (* ---- shared negative-cache state behind Cache.ServeDNS (ModelShared.v: admission guard, denial-proof
    index, subtree cuts; replacement, expiry, pruning, retirement of a zone without a live SOA, per-zone
    FIFO eviction in both caches).
@@ -399,3 +500,22 @@ Proof. exact (fun fuel o nx x Ho Hn Hx Hf =>
     (f_equal Some (f_equal3 covers_of_cmps (go_canonical_compare_spec o nx) (go_canonical_compare_spec x o)
                                            (go_canonical_compare_spec x nx)))). Qed.
 Print Assumptions nsec_covers_code_is_model.
+
+(* ---- session 5: dnsutil.NameInZone and dnsutil.HasNSEC3OptOut, translated by srcgen on every run (iface_cases:
+   dns.RR as a sum type, *dns.NSEC3 as a record; NameInZone with escapedDot) — the zone test behind
+   FilterRRsToZone / VerifyRRSIG's in-zone collection, and the Opt-Out test that keeps the minimised walk from
+   stopping and RecordNXDomainCut from admitting.  On the presentation strings of escape-free names (labels
+   non-empty, no '.', no backslash; leaf first; the root is ".") the translated NameInZone decides the
+   label-suffix relation; on NSEC3 records with escape-free lower-case owners hash-label.zone the translated
+   HasNSEC3OptOut is ModelAuth.has_optout3 (used by check_case for the walk).  Names with escapes: the
+   correspondence cases (CaseCmp inzone flag, kept positions) only *)
+Theorem name_in_zone_code_is_label_suffix :
+  forall fuel (ns zs : name), (0 < fuel)%nat -> plain_name ns -> plain_name zs ->
+  exists b, go_NameInZone fuel (present ns) (present zs) = Some b /\ (b = true <-> exists t, ns = t ++ zs).
+Proof. exact gen_name_in_zone_lemma. Qed.
+Print Assumptions name_in_zone_code_is_label_suffix.
+Theorem has_nsec3_optout_code_is_model :
+  forall fuel signer rs, (0 < fuel)%nat -> plain_name signer -> lower_name signer -> Forall (rec3_ok signer) rs ->
+  go_HasNSEC3OptOut fuel (map rr3_of rs) (present signer) = Some (has_optout3 (canon signer) (map snd rs)).
+Proof. exact gen_has_nsec3_optout_lemma. Qed.
+Print Assumptions has_nsec3_optout_code_is_model.
